@@ -100,11 +100,36 @@ def run_case(case, strict=False):  # pylint: disable=unused-argument,too-many-br
             if line.gcode is not None:
                 cl.add("code_line")
                 check_line(line, bad, cl)
+            if nlines <= 400:
+                # what a line is does not depend on what the parser has parsed before: a fresh parser reads the same line alike
+                ft = line.fullText
+                alone = GcodeParser().parse(ft)
+                mine = (line.gcode, line.type, line.code, line.subCode, line.parameters, line.lineNumber, line.checksum, line.comment, line.commandString)
+                theirs = (alone.gcode, alone.type, alone.code, alone.subCode, alone.parameters, alone.lineNumber, alone.checksum, alone.comment, alone.commandString)
+                if mine != theirs:
+                    bad("c18_line_depends_on_history", "line %r of %r is read as %r, a fresh parser reads it as %r" % (ft, text[:60], mine, theirs))
+                    break
             if nlines > len(text) + 2:
                 bad("c18_no_progress", "parseLines does not terminate on %r" % (text,))
                 break
     except Exception as exc:  # pylint: disable=broad-except
         bad("c18_exception", "parsing %r raised %s: %s" % (text, type(exc).__name__, exc))
+    if not out and text:
+        # a second pass over the text the parser holds, from an explicit offset 0 (and from the second line's offset)
+        try:
+            again = "".join(line.fullText for line in parser.parseLines(None, 0))
+            if again != text:
+                bad("c18_lossless", "a second pass parseLines(offset=0) over the held text %r gives %r" % (text[:60], again[:60]))
+            first = parser.parse(None, 0).fullText
+            if pieces and first != pieces[0]:
+                bad("c18_lossless", "parse(offset=0) on the held text %r gives %r, its first line is %r" % (text[:60], first, pieces[0]))
+            if len(pieces) > 1:
+                rest = "".join(line.fullText for line in parser.parseLines(None, len(pieces[0])))
+                if rest != text[len(pieces[0]):]:
+                    bad("c18_lossless", "parseLines(offset=%d) over the held text %r gives %r" % (len(pieces[0]), text[:60], rest[:60]))
+                cl.add("second_pass_from_offset")
+        except Exception as exc:  # pylint: disable=broad-except
+            bad("c18_exception", "a second pass over the held text raised %s: %s" % (type(exc).__name__, exc))
     if not out:
         # the parser object is used again for another text (also the empty one), whatever state the walk left it in
         two = "G1 X1 ;c\nM117 hi\r\n"
